@@ -39,6 +39,8 @@ struct VarInfo {
   int partner = -1;                     // SIN <-> COS of the same argument
   uint32_t active_gen = 0;              // constraints asserted in path #gen
   bool is_int = false;
+  int const_state = 0;                  // memo of "no free symbol inside" (0 unknown, 1 constant, 2 not)
+  int num_state = 0; std::shared_ptr<mpf_class> num;      // memo of the numeric value of a constant atom (0 unknown, 1 known, 2 not evaluable)
 };
 
 struct Violation {
@@ -190,12 +192,17 @@ static bool p_has_free(const Poly& p) {
   for (auto& kv : p) for (Var v : kv.first) { VKind k = E().vars[v].kind; if (k == V_FREE || k == V_UNINIT) return true; }
   return false;
 }
+static bool p_is_const(const Poly& p);
+static bool var_is_const(Var v) {                   // memoised per atom (the arguments of an atom never change)
+  VarInfo& vi = E().vars[v];
+  if (vi.const_state) return vi.const_state == 1;
+  bool c = !(vi.kind == V_FREE || vi.kind == V_UNINIT || vi.kind == V_INT);
+  if (c) for (size_t i = 0; i < E().vars[v].args.size(); i++) if (!p_is_const(E().vars[v].args[i])) { c = false; break; }
+  E().vars[v].const_state = c ? 1 : 2;
+  return c;
+}
 static bool p_is_const(const Poly& p) {            // no free symbol, directly or inside atoms
-  for (auto& kv : p) for (Var v : kv.first) {
-    const VarInfo& vi = E().vars[v];
-    if (vi.kind == V_FREE || vi.kind == V_UNINIT || vi.kind == V_INT) return false;
-    for (auto& a : vi.args) if (!p_is_const(a)) return false;
-  }
+  for (auto& kv : p) for (Var v : kv.first) if (!var_is_const(v)) return false;
   return true;
 }
 
@@ -250,6 +257,7 @@ static void pc_add(const z3::expr& f, std::initializer_list<const Poly*> polys) 
 }
 static void finish_atom(Var v) {
   Engine& e = E();
+  e.vars[v].const_state = 0; e.vars[v].num_state = 0; e.vars[v].num.reset();      // the arguments are complete only now
   std::set<Var> as; for (auto& a : e.vars[v].args) vars_of(a, as);
   for (Var u : as) e.users[u].push_back(v);
 }
@@ -520,9 +528,18 @@ static void mp_sincos(mpf_class a_in, mpf_class& s, mpf_class& c) {
   for (unsigned long n = 1; n < 2000; n++) { term = term * a / n; switch (n & 3) { case 1: sa += term; break; case 2: ca -= term; break; case 3: sa -= term; break; default: ca += term; } if (n > 8 && abs(term) < lim) break; }
   s = sa; c = ca;
 }
-static bool eval_var(Var v, mpf_class& out, int depth) {
+static bool eval_var_raw(Var v, mpf_class& out, int depth);
+static bool eval_var(Var v, mpf_class& out, int depth) {       // memoised: nested constant atoms form a DAG, not a tree
+  VarInfo& vi = E().vars[v];
+  if (vi.num_state == 1) { out = *vi.num; return true; }
+  if (vi.num_state == 2) return false;
+  mpf_class val(0, 512); bool ok = eval_var_raw(v, val, depth);
+  if (depth <= 400) { VarInfo& w = E().vars[v]; w.num_state = ok ? 1 : 2; if (ok) w.num.reset(new mpf_class(val, 512)); }
+  if (ok) out = val; return ok;
+}
+static bool eval_var_raw(Var v, mpf_class& out, int depth) {
   const VarInfo& vi = E().vars[v];
-  if (depth > 40) return false;
+  if (depth > 400) return false;
   mpf_class a(0, 512), b(0, 512);
   switch (vi.kind) {
     case V_SQRT: if (!eval_const(vi.args[0], a, depth + 1) || a < 0) return false; out = sqrt(a); return true;
